@@ -1,6 +1,7 @@
 import MazeVerif.DriverOps.C01
 import MazeVerif.DriverOps.C02
 import MazeVerif.Model.Dataset
+import MazeVerif.Model.DatasetGen
 namespace MZ.Drv.C03
 open Lean MZ.Drv MZ MZ.AStar
 
@@ -19,11 +20,75 @@ def jItem (r : Except ItemErr (List Cell)) : List (String × Json) :=
   | .error .noPath => [("solve", "noPath")]
   | .error (.solver r) => [("solve", "solver"), ("detail", C02.jResult r)]
 
+
+/-- the generator part of a request (same fields as a `C01.gen` request) as a `GenCfg`; `.error reason` when the given
+    `start_coord` is not a pair of integers (outside the model's type `Cell`) -/
+def getGenCfg (j : Json) : R (Except String (GenCfg × Option Cell)) := do
+  let gen ← getStr j "gen"
+  let rows ← getNat j "rows"; let cols ← getNat j "cols"
+  let given : Option Cell ← match (← C01.getStartArg j) with
+    | .absent => pure none
+    | .cell c => pure (some c)
+    | .wrongLength _ => return (.error "start_wrong_length")
+  let getP : R (Nat × Nat) := do
+    match ← getNatList j "p" with
+    | [pn, pd] => pure (pn, pd)
+    | _ => throw "p: expected [num, den]"
+  let getArgs : R Args := do
+    let acc ← C01.asPyNum (optFld j "accessible_cells")
+    let depth ← C01.asPyNum (optFld j "max_tree_depth")
+    let (nAcc, md) := C01.dfsArgs rows cols acc depth
+    let doForks := (optFld j "do_forks").map (fun v => v.getBool?.toOption.getD true) |>.getD true
+    let rs := (optFld j "randomized_stack").map (fun v => v.getBool?.toOption.getD false) |>.getD false
+    pure { nAcc := nAcc.toNat, maxDepth := md, doForks := doForks, randStack := rs }
+  match gen with
+  | "dfs" => pure (.ok (.dfs (← getArgs) given, given))
+  | "prim" => pure (.ok (.prim (← getArgs) given, given))
+  | "wilson" => pure (.ok (.wilson, none))
+  | "percolation" => pure (.ok (.percolation (← getP) given, given))
+  | "dfs_percolation" => pure (.ok (.dfsPercolation (← getP) (← getArgs) given, given))
+  | g => throw s!"unknown generator {g}"
+
+def getObs (j : Json) : R Obs := do
+  pure { s := ← getCell j "s", e := ← getCell j "e", picks := ← getCells j "picks" }
+
+def jDsItem (rows cols : Nat) (it : Item) : Json :=
+  obj [("edges", jEdges it.edges), ("component_size", jNat it.comp.length), ("s", jCell it.s), ("e", jCell it.e),
+       ("solution", jCells it.sol), ("wf", Json.bool (decide (WF rows cols it.edges)))]
+
+/-- the items a serial run completes before its first failing helper call, and the streams that call starts on
+    (the driver's own loop over `serialItem`, used only to NAME the failure when `generateSerial` returned `none`) -/
+def completed (cfg : DatasetCfg) (gf sf : Nat) : Nat → Streams → Nat → Nat × Streams
+  | 0, st, k => (k, st)
+  | n + 1, st, k =>
+    match serialItem cfg gf sf st with
+    | none => (k, st)
+    | some (_, st') => completed cfg gf sf n st' (k + 1)
+
+/-- why `serialItem` returned `none` on `st` -/
+def whyNone (cfg : DatasetCfg) (given : Option Cell) (gf sf : Nat) (st : Streams) : List (String × Json) :=
+  match genMaze cfg.rows cfg.cols cfg.gen st.draws st.rands gf with
+  | none => [("reason", Json.str (C01.noneReason cfg.rows cfg.cols given st.draws))]
+  | some m =>
+    if ¬ (1 < cfg.rows ∧ 1 < cfg.cols) then [("reason", "grid_side_not_above_1")]
+    else match st.obs with
+      | [] => [("reason", "no_observation_left")]
+      | ob :: _ =>
+        match endpointDraws cfg.rows cfg.cols m.edges m.comp cfg.opts ob.s m.draws with
+        | none => [("reason", Json.str "endpoint_draws"), ("next_draws", jNats (m.draws.take 2)), ("component_size", jNat m.comp.length),
+                   ("edges", jEdges m.edges)]
+        | some _ => ([("reason", Json.str "solve"), ("edges", jEdges m.edges)] : List (String × Json))
+                      ++ jItem (solveItem cfg.rows cfg.cols m.edges m.comp cfg.opts ob.s ob.e ob.picks sf)
+
 /-- `C03.item`: a `C01.gen` request (generator + tapped draws) plus `opts`, the observed `s`, `e` and A* `picks`:
     the model regenerates the maze, reads the component off the metadata, checks the endpoint choice is one the code can
     make and replays the solver.
     `C03.solve`: the same on a maze given explicitly (`edges`, `component`) — used for items that come out of worker
-    processes, where no tap is possible. -/
+    processes, where no tap is possible.
+    `C03.dataset`: a WHOLE tapped serial generation: generator fields as in `C01.gen`, `opts`, `n`, the complete `draws` /
+    `rands` streams of the run and per item the observed `obs = [{s, e, picks}]`; replayed with `generateSerial` (ONE
+    shared stream, each item starting on what the previous left). Reply: all items and the leftover stream sizes, or
+    `ok=false` with the index of the first failing helper call and why. -/
 def handle (op : String) (j : Json) : R Json := do
   match op with
   | "C03.item" =>
@@ -49,6 +114,29 @@ def handle (op : String) (j : Json) : R Json := do
     let picks ← getCells j "picks"
     pure (obj ([("ok", Json.bool true), ("wf", Json.bool (decide (WF rows cols E)))]
       ++ jItem (solveItem rows cols E comp opts s e picks (rows * cols + 1))))
+  | "C03.dataset" =>
+    let rows ← getNat j "rows"; let cols ← getNat j "cols"
+    let n ← getNat j "n"
+    match ← getGenCfg j with
+    | .error reason => pure (obj [("ok", false), ("failed_at", jNat 0), ("reason", Json.str reason)])
+    | .ok (g, given) =>
+      let opts ← getOpts (← fld j "opts")
+      let draws ← getNatList j "draws"
+      let rands ← C01.getRands j
+      let obs ← (← getArr j "obs").mapM getObs
+      let cfg : DatasetCfg := { rows := rows, cols := cols, gen := g, opts := opts }
+      let st : Streams := { draws := draws, rands := rands, obs := obs }
+      -- enough for every call: the per-item bounds of `C01.gen` / `C03.item`, taken on the whole stream
+      let gf := 64 * (draws.length + rows * cols) + 64
+      let sf := rows * cols + 1
+      match generateSerial cfg gf sf n st with
+      | some (its, left) =>
+        pure (obj [("ok", Json.bool true), ("items", jList (jDsItem rows cols) its), ("leftover_draws", jNat left.draws.length),
+                   ("leftover_rands", jNat left.rands.length), ("leftover_obs", jNat left.obs.length)])
+      | none =>
+        let (k, st') := completed cfg gf sf n st 0
+        pure (obj ([("ok", Json.bool false), ("failed_at", jNat k), ("draws_before", jNat (draws.length - st'.draws.length)),
+                    ("rands_before", jNat (rands.length - st'.rands.length))] ++ whyNone cfg given gf sf st'))
   | _ => throw s!"unknown op {op}"
 
 end MZ.Drv.C03
